@@ -21,7 +21,7 @@ type Hooks struct {
 	Setup   func(w *W, wl *Workload) error // after Install, before Boot
 	Started func(w *W, wl *Workload)       // after Boot (controllers running)
 	Env     func(w *W, wl *Workload) []sim.Action
-	Observe func(w *W, wl *Workload)            // after every step
+	Observe func(w *W, wl *Workload)             // after every step
 	Final   func(w *W, wl *Workload, quiet bool) // after heal
 	// NoCrash disables process crashes (properties whose quantifier has none).
 	MaxChaos   int
@@ -101,6 +101,9 @@ func Run(s *sim.Sim, res *runner.Result, h Hooks) {
 			acts = append(acts, h.Env(w, wl)...)
 		}
 		acts = append(acts, w.SleeperActions()...)
+		if w.View != nil && w.View.Manual && w.View.Behind(w.Store.Seq()) {
+			acts = append(acts, sim.Action{Key: "informer cache catches up", Weight: 12, Run: func() { w.View.CatchUp(w.Store.Seq()) }})
+		}
 		if !s.StepOnce(acts, 30) {
 			break
 		}
@@ -115,6 +118,9 @@ func Run(s *sim.Sim, res *runner.Result, h Hooks) {
 	rounds := h.HealRounds
 	if rounds == 0 {
 		rounds = 12
+	}
+	if w.View != nil {
+		w.View.Manual = false
 	}
 	quiet := w.Heal(rounds, func() {
 		if h.Observe != nil {
